@@ -110,6 +110,27 @@ def gen_cases(ctx, rng):
             c["src"] = [{"at": 1 * L.MS, "n": 9000}, {"at": 2 * L.MS, "n": 400}, {"at": 200000 * L.MS, "close": True}]   # 9 s through 1 KB/s
         cases.append(c)
         stats["slow_receiver"] = stats.get("slow_receiver", 0) + 1
+    # the toxic ADDED while several connections are already open (every one of them gets a budget of its own), and connections opened
+    # afterwards: each receiver gets exactly the first N bytes of ITS connection
+    for i in range(16 if ctx.tier == "quick" else 400):
+        N = rng.choice([50, 100, 1000])
+        nl = rng.range(2, 3)
+        at = 5 * L.MS + 333
+        srcs, starts = [], []
+        for k in range(nl):
+            late = k == nl - 1 and rng.chance(1, 3)
+            st = 20 * L.MS if late else 0
+            t, src = max(st, at) + rng.range(1, 20) * L.MS + k * 777, []
+            for _ in range(rng.range(2, 4)):
+                src.append({"at": t, "n": rng.range(N // 3, N)})
+                t += rng.range(1, 30) * L.MS
+            src.append({"at": t + 500 * L.MS, "close": True})
+            srcs.append(src)
+            starts.append(st)
+        cases.append({"dir": rng.choice(["upstream", "downstream"]), "chain": [L.tx("noop", name="n")] if rng.chance(1, 2) else [], "src": srcs[0], "srcs": srcs,
+                      "links": nl, "link_start": starts, "ops": [{"at": at, "op": "add", "toxic": L.tx("limit_data", name="d", bytes=N)}],
+                      "horizon": 3600 * 1000 * L.MS, "seed": 9500 + i, "added_limit": N})
+        stats["added_while_connections_open"] = stats.get("added_while_connections_open", 0) + 1
     return cases, stats
 
 
@@ -138,6 +159,14 @@ def expected_with_updates(case):
 def oracle(case, res):
     if res is None or "crash" in res:
         return "the process crashed: " + (res or {}).get("crash", "")[-300:]
+    if "added_limit" in case:
+        N = case["added_limit"]
+        sent = sum(e.get("n", 0) for e in case["src"])
+        want = min(N, sent)
+        if not res["prefix_ok"] or res["total"] != want:
+            return ("limit_data of %d bytes added while several connections were open: this connection's receiver got %d bytes, expected the first "
+                    "min(N, total) = %d of its own stream (the budget is per connection)" % (N, res["total"], want))
+        return None
     ds = [t for t in case["chain"] if t["type"] == "limit_data"]
     if not ds:
         return None
